@@ -149,7 +149,9 @@ func c20(c *core.Ctx) {
 	// nowrite
 	{
 		fns := recvPathFns(c)
-		fns = append(fns, recvFn)
+		if !containsFn(fns, recvFn) {
+			fns = append(fns, recvFn)
+		}
 		n := 0
 		for _, f := range fns {
 			for _, b := range f.Blocks {
@@ -191,4 +193,13 @@ func c20(c *core.Ctx) {
 		}
 		c.Count("byte-slice write sites on the receive path", n)
 	}
+}
+
+func containsFn(fs []*ssa.Function, f *ssa.Function) bool {
+	for _, x := range fs {
+		if x == f {
+			return true
+		}
+	}
+	return false
 }
